@@ -12,9 +12,7 @@ macro_rules! open3 {
         #[kani::proof]
         #[kani::unwind(8)]
         #[kani::stub(succinctly::util::broadword::select_in_word, crate::stubs::select_in_word_contract)]
-        #[kani::stub(std_detect::detect::__is_feature_detected::avx2, yes)]
-        #[kani::stub(core::arch::x86_64::_mm256_shuffle_epi8, models::mm256_shuffle_epi8)]
-        #[kani::stub(core::arch::x86_64::_mm256_sad_epu8, models::mm256_sad_epu8)]
+        #[kani::stub(succinctly::bits::scan::scan_select, crate::stubs::scan_select_model)]
         fn $name() {
             let pos: [u32; $n] = kani::any();
             let mut j = 0;
@@ -55,9 +53,7 @@ macro_rules! end3 {
         #[kani::proof]
         #[kani::unwind(8)]
         #[kani::stub(succinctly::util::broadword::select_in_word, crate::stubs::select_in_word_contract)]
-        #[kani::stub(std_detect::detect::__is_feature_detected::avx2, yes)]
-        #[kani::stub(core::arch::x86_64::_mm256_shuffle_epi8, models::mm256_shuffle_epi8)]
-        #[kani::stub(core::arch::x86_64::_mm256_sad_epu8, models::mm256_sad_epu8)]
+        #[kani::stub(succinctly::bits::scan::scan_select, crate::stubs::scan_select_model)]
         fn $name() {
             let pos: [u32; $n] = kani::any();
             let mut j = 0;
@@ -204,14 +200,84 @@ fn inv<const N: usize>(e: &Enc<N>, nwords: usize, s: St) -> bool {
     true
 }
 
+/// Interest-bit words of the table under test, shared with the select model.
+static mut IBW: [u64; 3] = [0; 3];
+/// Specification of the tables' private sampled select (`ib_select1_with_state`):
+/// position of the k-th interest bit, the index of its word, and the number of
+/// interest bits before that word. In the step harnesses the real function is
+/// replaced by this (its SAT encoding alone exceeds 40 GB); the real one is
+/// decided against the same model in `c17_ib_select_*`.
+fn ib_select_spec(k: usize) -> Option<(usize, usize, usize)> {
+    let ib = unsafe { IBW };
+    let mut before = 0usize;
+    let mut w = 0;
+    while w < 3 {
+        let pop = ib[w].count_ones() as usize;
+        if k < before + pop {
+            let bit = crate::stubs::select_in_word_contract(ib[w], (k - before) as u32) as usize;
+            return Some((w * 64 + bit, w, before));
+        }
+        before += pop;
+        w += 1;
+    }
+    None
+}
+fn ib_select_model_open(_t: &succinctly::verif_hooks::AdvancePositions, k: usize) -> Option<(usize, usize, usize)> {
+    ib_select_spec(k)
+}
+fn ib_select_model_end(_t: &succinctly::verif_hooks::CompactEndPositions, k: usize) -> Option<(usize, usize, usize)> {
+    ib_select_spec(k)
+}
+
+/// Symbolic indices into the tables' heap arrays (the lookup index, the cursor's
+/// word index) make the SAT encoding explode (one lookup: > 20 GB), while the same
+/// lookup with a concrete index costs about 20k program steps. So both are case
+/// split in the harness: every branch calls the real code with constants, and the
+/// solver still ranges over all branches.
+macro_rules! split_get {
+    ($t:expr, $i:expr) => {
+        match $i {
+            0 => $t.get(0),
+            1 => $t.get(1),
+            2 => $t.get(2),
+            3 => $t.get(3),
+            4 => $t.get(4),
+            5 => $t.get(5),
+            6 => $t.get(6),
+            _ => $t.get(7),
+        }
+    };
+}
+macro_rules! seed_and_get {
+    ($t:expr, $s:expr, $i:expr) => {
+        match $s.2 {
+            0 => {
+                $t.verif_set_cursor_state(($s.0, $s.1, 0, $s.3, $s.4, $s.5));
+                split_get!($t, $i)
+            }
+            1 => {
+                $t.verif_set_cursor_state(($s.0, $s.1, 1, $s.3, $s.4, $s.5));
+                split_get!($t, $i)
+            }
+            2 => {
+                $t.verif_set_cursor_state(($s.0, $s.1, 2, $s.3, $s.4, $s.5));
+                split_get!($t, $i)
+            }
+            _ => {
+                $t.verif_set_cursor_state(($s.0, $s.1, 3, $s.3, $s.4, $s.5));
+                split_get!($t, $i)
+            }
+        }
+    };
+}
+
 macro_rules! open_step {
     ($name:ident, $n:expr, $tl:expr, $maxpos:expr) => {
         #[kani::proof]
         #[kani::unwind(8)]
         #[kani::stub(succinctly::util::broadword::select_in_word, crate::stubs::select_in_word_contract)]
-        #[kani::stub(std_detect::detect::__is_feature_detected::avx2, yes)]
-        #[kani::stub(core::arch::x86_64::_mm256_shuffle_epi8, models::mm256_shuffle_epi8)]
-        #[kani::stub(core::arch::x86_64::_mm256_sad_epu8, models::mm256_sad_epu8)]
+        #[kani::stub(succinctly::bits::scan::scan_select, crate::stubs::scan_select_model)]
+        #[kani::stub(succinctly::yaml::advance_positions::AdvancePositions::ib_select1_with_state, ib_select_model_open)]
         fn $name() {
             let pos: [u32; $n] = kani::any();
             let mut j = 0;
@@ -223,30 +289,24 @@ macro_rules! open_step {
                 j += 1;
             }
             let e = enc_open::<$n>(&pos);
-            let op = OpenPositions::build(&pos, $tl);
-            let ap = match &op {
-                OpenPositions::Compact(ap) => ap,
-                _ => {
-                    assert!(false);
-                    return;
-                }
-            };
+            unsafe {
+                IBW = e.ib;
+            }
+            // monotone input: this is the table OpenPositions::build wraps as `Compact`
+            let ap = succinctly::verif_hooks::AdvancePositions::build_unchecked(&pos, $tl);
             let nwords = ($tl + 63) / 64;
-            // the state after construction satisfies the invariant
-            assert!(inv(&e, nwords, ap.verif_cursor_state()));
-            // arbitrary state satisfying the invariant
+            // arbitrary cursor state satisfying the invariant
             let s: St = (kani::any(), kani::any(), kani::any(), kani::any(), kani::any(), kani::any());
             kani::assume(inv(&e, nwords, s));
-            ap.verif_set_cursor_state(s);
             let i: usize = kani::any();
             kani::assume(i <= $n + 1);
-            let got = op.get(i);
+            let got = seed_and_get!(ap, s, i);
             assert!(got == if i < $n { Some(pos[i]) } else { None });
             assert!(inv(&e, nwords, ap.verif_cursor_state()));
             kani::cover!(i < s.0 && i < $n);
             kani::cover!(i == s.0 && s.4 != usize::MAX && i < $n);
             kani::cover!(i > s.0 + 1 && i < $n);
-            core::mem::forget(op);
+            core::mem::forget(ap);
         }
     };
 }
@@ -258,14 +318,34 @@ open_step!(c17_open_step_n6_tl100, 6, 100, 99);
 open_step!(c17_open_step_n4_tl100_eof, 4, 100, 100);
 open_step!(c17_open_step_n4_tl64_eof, 4, 64, 64);
 
+/// The constructor's cursor state satisfies the invariant (base case), and
+/// OpenPositions picks the compact table exactly for monotone input.
+#[kani::proof]
+#[kani::unwind(8)]
+#[kani::stub(succinctly::util::broadword::select_in_word, crate::stubs::select_in_word_contract)]
+fn c17_open_init_inv_n4() {
+    let pos: [u32; 4] = kani::any();
+    kani::assume(pos[0] <= 100 && pos[1] <= 100 && pos[2] <= 100 && pos[3] <= 100);
+    let mono = pos[0] <= pos[1] && pos[1] <= pos[2] && pos[2] <= pos[3];
+    let op = OpenPositions::build(&pos, 100);
+    assert!(op.is_compact() == mono);
+    assert!(op.len() == 4 && !op.is_empty());
+    if let OpenPositions::Compact(ap) = &op {
+        let e = enc_open::<4>(&pos);
+        assert!(inv(&e, 2, ap.verif_cursor_state()));
+    }
+    kani::cover!(mono);
+    kani::cover!(!mono);
+    core::mem::forget(op);
+}
+
 macro_rules! end_step {
     ($name:ident, $n:expr, $tl:expr, $maxpos:expr) => {
         #[kani::proof]
         #[kani::unwind(8)]
         #[kani::stub(succinctly::util::broadword::select_in_word, crate::stubs::select_in_word_contract)]
-        #[kani::stub(std_detect::detect::__is_feature_detected::avx2, yes)]
-        #[kani::stub(core::arch::x86_64::_mm256_shuffle_epi8, models::mm256_shuffle_epi8)]
-        #[kani::stub(core::arch::x86_64::_mm256_sad_epu8, models::mm256_sad_epu8)]
+        #[kani::stub(succinctly::bits::scan::scan_select, crate::stubs::scan_select_model)]
+        #[kani::stub(succinctly::yaml::end_positions::CompactEndPositions::ib_select1_with_state, ib_select_model_end)]
         fn $name() {
             let pos: [u32; $n] = kani::any();
             // non-zero entries non-decreasing (compact encoding), zero = no end recorded
@@ -281,6 +361,9 @@ macro_rules! end_step {
             }
             kani::assume(prev > 0); // at least one recorded end (otherwise the table is empty)
             let e = enc_end::<$n>(&pos);
+            unsafe {
+                IBW = e.ib;
+            }
             let ep = EndPositions::build(&pos, $tl);
             let c = match &ep {
                 EndPositions::Compact(c) => c,
@@ -290,13 +373,11 @@ macro_rules! end_step {
                 }
             };
             let nwords = ($tl + 1 + 63) / 64;
-            assert!(inv(&e, nwords, c.verif_cursor_state()));
             let s: St = (kani::any(), kani::any(), kani::any(), kani::any(), kani::any(), kani::any());
             kani::assume(inv(&e, nwords, s));
-            c.verif_set_cursor_state(s);
             let i: usize = kani::any();
             kani::assume(i <= $n + 1);
-            let got = ep.get(i);
+            let got = seed_and_get!(c, s, i);
             assert!(end_ok(&pos, i, got));
             assert!(inv(&e, nwords, c.verif_cursor_state()));
             kani::cover!(i < s.0 && i < $n && pos[i] > 0);
@@ -309,6 +390,23 @@ end_step!(c17_end_step_n4_tl100, 4, 100, 100);
 end_step!(c17_end_step_n5_tl128, 5, 128, 128);
 end_step!(c17_end_step_n4_tl64, 4, 64, 64);
 end_step!(c17_end_step_n4_tl63, 4, 63, 63);
+
+#[kani::proof]
+#[kani::unwind(8)]
+#[kani::stub(succinctly::util::broadword::select_in_word, crate::stubs::select_in_word_contract)]
+fn c17_end_init_inv_n4() {
+    let pos: [u32; 4] = kani::any();
+    kani::assume(pos[0] <= 100 && pos[1] <= 100 && pos[2] <= 100 && pos[3] <= 100);
+    let ep = EndPositions::build(&pos, 100);
+    if let EndPositions::Compact(c) = &ep {
+        let e = enc_end::<4>(&pos);
+        if e.eff[3] != 0 {
+            assert!(inv(&e, 2, c.verif_cursor_state()));
+        }
+    }
+    kani::cover!(matches!(&ep, EndPositions::Compact(_)) && pos[3] > 0 && pos[0] == 0);
+    core::mem::forget(ep);
+}
 
 /// Non-monotone inputs take the dense fallback, which has no cursor: any index.
 #[kani::proof]
@@ -332,10 +430,8 @@ fn c17_dense_fallback_n4() {
 
 #[kani::proof]
 #[kani::unwind(8)]
-#[kani::stub(succinctly::util::simd::x86::has_fast_bmi2, no)]
-#[kani::stub(std_detect::detect::__is_feature_detected::avx2, yes)]
-#[kani::stub(core::arch::x86_64::_mm256_shuffle_epi8, models::mm256_shuffle_epi8)]
-#[kani::stub(core::arch::x86_64::_mm256_sad_epu8, models::mm256_sad_epu8)]
+#[kani::stub(succinctly::util::broadword::select_in_word, crate::stubs::select_in_word_contract)]
+#[kani::stub(succinctly::bits::scan::scan_select, crate::stubs::scan_select_model)]
 fn c17_witness_must_fail() {
     let pos: [u32; 3] = kani::any();
     kani::assume(pos[0] <= 50 && pos[1] <= 50 && pos[2] <= 50);
@@ -344,3 +440,66 @@ fn c17_witness_must_fail() {
     assert!(op.get(1).unwrap() > op.get(0).unwrap());
     core::mem::forget(op);
 }
+
+
+
+
+/// The real sampled select of both tables against the model the step harnesses
+/// substitute, every k (case split: symbolic k is what explodes).
+macro_rules! ib_select {
+    ($name:ident, $n:expr, $tl:expr, $maxpos:expr) => {
+        #[kani::proof]
+        #[kani::unwind(8)]
+        #[kani::stub(succinctly::util::broadword::select_in_word, crate::stubs::select_in_word_contract)]
+        fn $name() {
+            let pos: [u32; $n] = kani::any();
+            let mut j = 0;
+            while j < $n {
+                kani::assume(pos[j] <= $maxpos && pos[j] >= 1);
+                if j > 0 {
+                    kani::assume(pos[j - 1] <= pos[j]);
+                }
+                j += 1;
+            }
+            let e = enc_open::<$n>(&pos);
+            unsafe {
+                IBW = e.ib;
+            }
+            let k: usize = kani::any();
+            kani::assume(k <= $n + 1);
+            let ap = succinctly::verif_hooks::AdvancePositions::build_unchecked(&pos, $tl);
+            let got = match k {
+                0 => ap.verif_ib_select1_with_state(0),
+                1 => ap.verif_ib_select1_with_state(1),
+                2 => ap.verif_ib_select1_with_state(2),
+                3 => ap.verif_ib_select1_with_state(3),
+                4 => ap.verif_ib_select1_with_state(4),
+                5 => ap.verif_ib_select1_with_state(5),
+                6 => ap.verif_ib_select1_with_state(6),
+                _ => ap.verif_ib_select1_with_state(7),
+            };
+            assert!(got == ib_select_spec(k));
+            // same bits, end-position table (positions >= 1 are all recorded ends)
+            if let EndPositions::Compact(c) = &EndPositions::build(&pos, $tl) {
+                let got_e = match k {
+                    0 => c.verif_ib_select1_with_state(0),
+                    1 => c.verif_ib_select1_with_state(1),
+                    2 => c.verif_ib_select1_with_state(2),
+                    3 => c.verif_ib_select1_with_state(3),
+                    4 => c.verif_ib_select1_with_state(4),
+                    5 => c.verif_ib_select1_with_state(5),
+                    6 => c.verif_ib_select1_with_state(6),
+                    _ => c.verif_ib_select1_with_state(7),
+                };
+                assert!(got_e == ib_select_spec(k));
+            } else {
+                assert!(false);
+            }
+            kani::cover!(matches!(got, Some((p, 1, b)) if p >= 64 && b > 0));
+            kani::cover!(got.is_none() && k < $n);
+            core::mem::forget(ap);
+        }
+    };
+}
+ib_select!(c17_ib_select_n4_tl100, 4, 100, 99);
+ib_select!(c17_ib_select_n5_tl128, 5, 128, 127);
